@@ -154,10 +154,76 @@ func (g *cgen) timeC() *search.TimeConstraint {
 	case 2:
 		tc.After = types.Time3339(d)
 		tc.Before = types.Time3339(ds[len(ds)-1].Add(time.Second))
+		if time.Time(tc.Before).Year() > 9999 { // (not expressible in RFC 3339)
+			tc.Before = types.Time3339(ds[len(ds)-1])
+		}
 	default:
 		tc.Before = types.Time3339(d.Add(time.Minute))
 	}
+	if b := time.Time(tc.Before); !b.IsZero() && b.Unix() == 0 {
+		// not generated: an upper bound within the second 1970-01-01T00:00:00Z (see directedTimes)
+		tc.Before = types.Time3339(unixEpoch.Add(time.Second))
+	}
 	return tc
+}
+
+// directedTimes: time / modTime constraints whose bounds lie exactly on special instants — the Unix
+// epoch, one nanosecond / one second / half a second next to it, the world's extreme dates — alone,
+// negated, and-ed with an attribute test, and as two-sided intervals.  NOT generated: an upper
+// bound ("before") within the second 1970-01-01T00:00:00Z, which perkeep deliberately reads as "no
+// bound" (types.Time3339.IsAnyZero: JSON clients send the Unix zero time for an unset field); the
+// documentation says nothing about it either way.  A lower bound ("after") is documented as ">="
+// and is unset only when it is the zero time (null in JSON).
+func (g *cgen) directedTimes(instants []time.Time) []*search.Constraint {
+	pn := &search.Constraint{CamliType: schema.TypePermanode}
+	and := func(a, b *search.Constraint) *search.Constraint {
+		return &search.Constraint{Logical: &search.LogicalConstraint{Op: "and", A: a, B: b}}
+	}
+	not := func(a *search.Constraint) *search.Constraint {
+		return &search.Constraint{Logical: &search.LogicalConstraint{Op: "not", A: a}}
+	}
+	var out []*search.Constraint
+	leaf := func(mod bool, tc *search.TimeConstraint) *search.Constraint {
+		if b := time.Time(tc.Before); !b.IsZero() && b.Unix() == 0 {
+			return nil
+		}
+		pc := &search.PermanodeConstraint{}
+		if mod {
+			pc.ModTime = tc
+		} else {
+			pc.Time = tc
+		}
+		return &search.Constraint{Permanode: pc}
+	}
+	add := func(c *search.Constraint) {
+		if c != nil {
+			out = append(out, c)
+		}
+	}
+	for i, t := range instants {
+		for _, mod := range []bool{false, true} {
+			after := leaf(mod, &search.TimeConstraint{After: types.Time3339(t)})
+			add(after)
+			add(leaf(mod, &search.TimeConstraint{Before: types.Time3339(t)}))
+			add(and(pn, not(after)))
+			if !mod || i%2 == 0 {
+				add(and(&search.Constraint{Permanode: &search.PermanodeConstraint{Attr: "tag", NumValue: &search.IntConstraint{Min: 1}}}, leaf(mod, &search.TimeConstraint{After: types.Time3339(t)})))
+			}
+			// two-sided: [t, some later instant) and [some earlier instant, t)
+			if j := (i + 3) % len(instants); instants[j].After(t) {
+				add(leaf(mod, &search.TimeConstraint{After: types.Time3339(t), Before: types.Time3339(instants[j])}))
+			} else if instants[j].Before(t) {
+				add(leaf(mod, &search.TimeConstraint{After: types.Time3339(instants[j]), Before: types.Time3339(t)}))
+			}
+		}
+		// both clocks in one node, and a time test next to an attribute test in the same node
+		add(&search.Constraint{Permanode: &search.PermanodeConstraint{Time: &search.TimeConstraint{After: types.Time3339(t)}, ModTime: &search.TimeConstraint{After: types.Time3339(t)}}})
+		add(&search.Constraint{Permanode: &search.PermanodeConstraint{Attr: "tag", Value: g.pick(g.w.tags), Time: &search.TimeConstraint{After: types.Time3339(t)}}})
+	}
+	// no bound at all: every permanode that has a time
+	add(leaf(false, &search.TimeConstraint{}))
+	add(leaf(true, &search.TimeConstraint{}))
+	return out
 }
 
 func (g *cgen) at() time.Time {
